@@ -170,7 +170,8 @@ def main() -> int:
     ev = {"property_id": prop, "tier": tier, "seed": seed, "level": "proof", "coverage": cov,
           "assumptions": meta.get("assumptions", []), "wall_s": round(time.time() - t0, 2),
           "violations": len(ctx.failures) + (1 if (broken and not ctx.failures) else 0)}
-    write_json(VERIF / "evidence" / f"{prop}.json", ev)
+    if not a.no_lean:   # development runs without the proof audit never overwrite the evidence record
+        write_json(VERIF / "evidence" / f"{prop}.json", ev)
     for ln in lines:
         print(ln)
     print(f"{prop} {tier} seed={seed}: obligations {aud['discharged']}/{aud['obligations']}, "
